@@ -301,7 +301,8 @@ def lex_initial(s: Scanner) -> None:
         s.emit(TokenType.EQUAL)
     elif s.accept_prefix("/*"):
         while not s.accept_prefix("*/"):
-            s.next()
+            if s.next() is None:
+                raise ScannerException("Unterminated comment", s.get_position())
         s.emit(TokenType.COMMENT)
     else:
         if s.next() is not None:
